@@ -661,6 +661,68 @@ def unit_cubic(twin=False):
     return r
 
 
+def unit_setup_fixed_volume(twin=False):
+    """setup_fixed_volume_gas: one GAS_MOLES unknown per gas component, in component order (so gas_unknowns[i] belongs to component i, as
+    build_fixed_volume_gas and calc_fixed_volume_gas_pressures assume): its phase is the phase named by the component, its moles are the
+    component's moles (the numerical floor MIN_TOTAL when none), ln_moles = ln(moles); the phase's moles_x and the gas phase's total moles
+    start from the same numbers; the list starts empty and the first entry becomes the representative gas unknown."""
+    q = "Phreeqc::setup_fixed_volume_gas"
+    c = ctx(functional=("Get_gas_phase_ptr", "Get_gas_comps", "Get_phase_name", "c_str", "phase_bsearch", "Get_moles"), enums_from="Phreeqc.h", enums=ENUMS)
+    accessor_handlers(c, "cxxGasPhase", ["total_moles"])
+    fn, ex, fin, info = U.run_function(GASES, q, modes={0: "iter"}, ctx=c)
+    r = U.new_unit("C19.setup_fixed_volume_gas.one_unknown_per_component_in_component_order", GASES, q, fn)
+    gm = A.enum_values_compiled("Phreeqc.h", ["GAS_MOLES"])["GAS_MOLES"]
+    n = {}
+    gu = tm.app("fld:gas_unknowns", (THIS,), "P")
+    for s in info["entry"].get(0, []):
+        size = tm.select(ex.heap_arr(s, ("f", "#vsize", "I")), gu)
+        tmole = [v for k, ix, v in U.iter_writes(s) if k == ("f", "gp_total_moles", "R")]
+        r.add("list_of_gas_unknowns_starts_empty_and_total_moles_at_0", DISCHARGED if tm.isnum(size) and size.args[0] == 0 and tmole and tm.isnum(tmole[-1]) and tmole[-1].args[0] == 0 else FAILED, "symex", 0, repr(size), kind="establishment")
+        n["entry"] = 1
+    for s in live(info["iter"].get(0, []), ("run", "cont")):
+        cu = tm.select(base_arr(ex, s, ("f", "count_unknowns", "I")), THIS)
+        un = tm.select(base_arr(ex, s, ("m", "P")), tm.select(base_arr(ex, s, ("f", "#vdata", "P")), tm.app("fld:x", (THIS,), "P")), cu)
+        pb = [e for e in U.iter_events(s) if e.name.endswith("phase_bsearch")]
+        gmv = [e for e in U.iter_events(s) if e.name.endswith("Get_moles")]
+        if len(pb) != 1 or "Get_phase_name" not in repr(pb[0].args[0]) or "iter_i" not in repr(pb[0].args[0]) or not gmv or "iter_i" not in repr(gmv[0].recv):
+            r.add("component.phase_and_moles_of_component_i_are_read", FAILED, "symex", 0, ""); continue
+        ph = pb[0].result; cm = gmv[0].result
+        w = {(k[1], ix[0] if len(ix) == 1 else ix): v for k, ix, v in U.iter_writes(s)}
+        floor_ = tm.select(base_arr(ex, s, ("f", "MIN_TOTAL", "R")), THIS)
+        def body(dec, hyps, s=s, un=un, ph=ph, cm=cm, w=w, cu=cu):
+            mol = cm if dec(tm.lt(tm.num(0), cm)) else floor_
+            if twin: mol = cm
+            tag = "moles>0" if mol is cm else "no_moles"
+            U.discharge_eq_real(r, "%s.unknown_moles==%s" % (tag, "component_moles" if mol is cm else "MIN_TOTAL"), hyps, w.get(("moles", un), tm.num(0)), mol)
+            U.discharge_eq_real(r, "%s.ln_moles==ln(moles)" % tag, hyps, w.get(("ln_moles", un), tm.num(0)), tm.app("log", (mol,), "R"))
+            U.discharge_eq_real(r, "%s.phase_moles_x==moles" % tag, hyps, w.get(("moles_x", ph), tm.num(0)), mol)
+            gp = [k for k in w if k[0] == "gp_total_moles"]
+            U.discharge_eq_real(r, "%s.total_moles+=moles" % tag, hyps, w[gp[0]] if gp else tm.num(0), tm.select(base_arr(ex, s, ("f", "gp_total_moles", "R")), gp[0][1]) + mol if gp else tm.num(1))
+            ok = w.get(("phase", un)) is ph and tm.isnum(w.get(("type", un), tm.TRUE)) and w[("type", un)].args[0] == gm
+            r.add("%s.unknown_is_a_GAS_MOLES_row_of_the_component's_phase" % tag, DISCHARGED if ok else FAILED, "symex", 0, "")
+            size0 = tm.select(base_arr(ex, s, ("f", "#vsize", "I")), gu)
+            data = tm.select(base_arr(ex, s, ("f", "#vdata", "P")), gu)
+            pushed = [e for e in U.iter_events(s) if e.name == "vector.push_back" and e.recv is gu]
+            okp = w.get(("#vsize", gu)) is tm.add(size0, tm.num(1, "I")) and len(pushed) == 1 and pushed[0].args[0] is size0 and (pushed[0].args[1] is un or pushed[0].args[1] == tm.add(tm.select(base_arr(ex, s, ("f", "#vdata", "P")), tm.app("fld:x", (THIS,), "P")), cu))
+            r.add("%s.unknown_appended_to_gas_unknowns(component_order)" % tag, DISCHARGED if okp else FAILED, "symex", 0, repr(pushed)[:100])
+            r.add("%s.next_component_gets_the_next_unknown(count_unknowns+1)" % tag, DISCHARGED if w.get(("count_unknowns", THIS)) is tm.add(cu, tm.num(1, "I")) else FAILED, "symex", 0, "")
+            n[tag] = 1
+        case_split(list(s.pc), body)
+    lp0 = [x for x in A.walk(fn) if x.get("kind") == "ForStmt"][0]
+    r.add("lists.loop_runs_over_all_gas_components", DISCHARGED if text_of(GASES, lp0["inner"][2]).endswith("<gas_phase_ptr->Get_gas_comps().size()") and text_of(GASES, lp0["inner"][0]).endswith("i=0;") else FAILED, "syntactic", 0, "", kind="structural")
+    for s in live(fin, ("ret",)):
+        g = [v for k, ix, v in U.iter_writes(s) if k == ("f", "gas_unknown", "P")]
+        size = tm.select(ex.heap_arr(s, ("f", "#vsize", "I")), gu)
+        some = decide(s, tm.lt(tm.num(0, "I"), size))
+        if some:
+            first = tm.select(ex.heap_arr(s, ("m", "P")), tm.select(ex.heap_arr(s, ("f", "#vdata", "P")), gu), tm.num(0, "I"))
+            r.add("representative_gas_unknown_is_the_first_component's", DISCHARGED if g and g[-1] is first else FAILED, "symex", 0, repr(g)[:100]); n["first"] = 1
+    need = {"entry", "moles>0", "no_moles", "first"}
+    r.add("reach.cases", DISCHARGED if need <= set(n) else UNDECIDED, "symex", 0, "missing %r" % sorted(need - set(n)), kind="vacuity")
+    r.assumptions += ["x[count_unknowns] are distinct pre-allocated unknown records", "accessors / phase_bsearch functional", "std::vector model (push_back appends at index size)", "doubles as reals; log uninterpreted"]
+    return r
+
+
 def free_induction(fn_loop_node):
     """prepare hook: an induction variable whose address is taken lives in memory; make it arbitrary for the iteration contract"""
     def prep(ex_, s_, info_):
@@ -802,6 +864,7 @@ UNITS = [
     ("C19.calc_fixed_volume_gas_pressures.partial_pressures_from_fugacity_and_moles_from_the_EOS_at_fixed_V", unit_fixed_volume_pressures),
     ("C19.calc_gas_pressures.partial_pressures_are_mole_fraction_shares_and_moles_follow_the_EOS", unit_gas_pressures_components),
     ("C19.gas_rows.fixed_pressure_phase_exists_iff_sum_p_i_reaches_P_and_GAS_MOLES_residuals", unit_gas_rows),
+    ("C19.setup_fixed_volume_gas.one_unknown_per_component_in_component_order", unit_setup_fixed_volume),
     ("C19.read_gas_phase.defaults_and_option_table", unit_read_gas_phase),
     ("C19.calc_PR[prep].molar_volume_is_the_gas_root_of_the_cubic_and_P_is_the_EOS_pressure", unit_cubic),
     ("C19.build_gas_phase.mass_balance_and_pressure_sum_terms_of_each_gas_component", lambda twin=False: unit_build_gas("pressure", twin)),
